@@ -440,6 +440,28 @@ def r19c(P, R):
 
 
 # ---------------------------------------------------------------------------------------------------------------- R19-d
+WHOLE_TABLE = {"iter", "iter_mut", "values", "values_mut", "keys", "into_iter", "drain", "retain", "clear", "into_values", "into_keys", "extract_if", "len", "is_empty"}
+
+
+def keyed_accessor(P, ld, path, _depth=0):
+    """a method of the task table that addresses one task by an id it is given: it takes an id, and neither it nor the table
+    methods it delegates to walk, count or clear the whole map"""
+    f = P.fns.get(path)
+    if f is None or f.self_adt != ld.tasks.path or not any(t == "usize" for t in f.sig_inputs) or _depth > 3:
+        return False
+    for c in f.walk():
+        if c.get("k") == "MethodCall":
+            if c["method"] in WHOLE_TABLE and any(w in norm(c.get("recv_ty", "") or "") for w in ("HashMap", "BTreeMap", "Vec<")):
+                return False
+            cn = call_name(c) or ""
+            g = P.fns.get(cn)
+            if g is not None and g.self_adt == ld.tasks.path and cn != path and not keyed_accessor(P, ld, cn, _depth + 1):
+                return False
+        if c.get("k") == "Match" and c.get("src") == "ForLoopDesugar":
+            return False
+    return True
+
+
 def r19d(P, R):
     """total task lookup: unknown/freed ids give an error result, never a trap"""
     ld = Loader(P)
@@ -473,8 +495,9 @@ def r19d(P, R):
         # other uses of `tasks`: none
         tasks_local = f0.params[0].get("local") if f0.params else None
         uses = [call_name(c) or c["method"] for c in f0.walk() if c.get("k") == "MethodCall" and c["recv"].get("k") == "Path" and c["recv"].get("local") == tasks_local]
-        R.check("R19-d", "isolation:" + name, set(uses) <= getters, "only the addressed task is touched",
-                "%s also uses the task table through %s" % (f0.path, sorted(set(uses) - getters)), loc=f0.loc())
+        wide = sorted(u for u in set(uses) if u not in getters and not keyed_accessor(P, ld, u))
+        R.check("R19-d", "isolation:" + name, not wide, "only the addressed task is touched (the table is used through accessors keyed by the task id)",
+                "%s also uses the task table through %s, which is not a lookup of one task by its id" % (f0.path, wide), loc=f0.loc())
     # the accessors are plain map lookups keyed by the id
     for acc_, m in (("get_task", "get"), ("get_task_mut", "get_mut"), ("remove_task", "remove")):
         f = ld.method(ld.tasks, acc_)
@@ -507,7 +530,12 @@ def r19d(P, R):
         ta |= pv.atoms(e)
     from_len = any(x[0] == "call" and x[1].endswith("::len") for x in ta)
     from_counter = any(has_field(ta, TS, c) for c in ld.counters)
-    if from_len or not ld.counters or not from_counter:
+    # the id must come from the counter alone: any other field of the table feeding it (a free list, the map) recycles ids
+    recycled = sorted({x[2] for x in ta if x[0] == "field" and x[1] == TS and x[2] not in ld.counters})
+    if recycled and from_counter and not from_len:
+        R.violated("R19-d", "ids-monotonic", "add_task can issue an id taken from %s instead of the counter: the id of a freed (or never issued) task becomes live "
+                   "again, so calls on freed ids stop failing and two tasks can end up under one id" % ", ".join("Tasks." + r for r in recycled), loc=add.loc())
+    elif from_len or not ld.counters or not from_counter:
         R.violated("R19-d", "ids-monotonic", "add_task does not issue ids from a monotonically increasing counter (an id could be reused while live or after free)%s"
                    % (": the id is computed from the table's size" if from_len else ""), loc=add.loc())
     elif len(incs) == 1:
@@ -568,7 +596,8 @@ def r19e(P, R):
     parameter and touches no static"""
     ld = Loader(P)
     T, TS = ld.task.path, ld.tasks.path
-    cells = [L + "TASKS", L + "RESULT", L + "CONFIG"]
+    from templates import global_state_holders
+    cells = sorted(h for h, (t, _) in global_state_holders(P).items() if h.startswith(L) and "thread_local" in t)
     abi = {f.path for f in ld.abi.values()}
     users = {}
     for f in P.fns.values():
@@ -637,6 +666,39 @@ def r19e(P, R):
     else:
         R.check("R19-e", "required-skips-loaded", any(has_call(pv.atoms(c["args"][0]), "resolve_relative_path") for c in lookups if c["args"]),
                 "already supplied files are not asked for again", "get_required_files does not skip files the task already has (the membership test is not on the resolved path)", loc=g0.loc())
+    # every import is judged by its *resolved target*: a condition that drops an import (skip in a loop, `filter` in a chain,
+    # `if` around the push) and reads the import's specifier without resolving it against the importing file decides by the wrong key
+    import_adts = set()
+    for ap, a in P.adts.items():
+        if a.kind == "Struct" and ap.split("::")[-1].endswith("Extension"):
+            for t in a.field_types().values():
+                for bp in P.adts:
+                    if bp in t and bp.split("::")[-1] == "Import":
+                        import_adts.add(bp)
+    guards = []
+    for i, (x, _) in enumerate(g.nodes()):
+        if x.get("k") == "If" and x["cond"].get("k") != "LetExpr":
+            skips = any(y.get("k") in ("Continue", "Break") for b in (x.get("then"), x.get("else")) if b is not None for y in subnodes(b))
+            pushes = any(y.get("k") == "MethodCall" and y["method"] in ("push", "insert", "push_back") and "PathBuf" in norm(y.get("recv_ty", "") or "")
+                         for b in (x.get("then"), x.get("else")) if b is not None for y in subnodes(b))
+            if skips or pushes:
+                guards.append(("condition", x["cond"]))
+        elif x.get("k") == "MethodCall" and x["method"] in ("filter", "take_while", "skip_while", "filter_map", "retain") and x["args"] and x["args"][0].get("k") == "Closure":
+            guards.append(("`%s` closure" % x["method"], x["args"][0]["body"]))
+    blind = []
+    for what, e in guards:
+        a = pv.atoms(e)
+        reads_import = any(x[0] == "field" and x[1] in import_adts for x in a)
+        if reads_import and not has_call(a, "resolve_relative_path"):
+            blind.append(what)
+    if blind:
+        R.violated("R19-e", "required-selected-by-target", "get_required_files drops imports by a %s on the import specifier itself, not on the path it resolves to "
+                   "relative to the importing file: the same specifier written in files of different directories names different targets, so a needed "
+                   "file is never asked for" % " / ".join(sorted(set(blind))), loc=g0.loc())
+    elif import_adts:
+        R.holds("R19-e", "required-selected-by-target", "imports are selected only by their resolved target (%d selecting conditions)" % len(guards), loc=g0.loc())
+    else:
+        R.undecided("R19-e", "required-selected-by-target", "the element type of the document's imports cannot be identified", loc=g0.loc())
     # ... and the answer is a pure function of the files supplied: the query does not modify the task, and nothing is removed
     # from the list once computed
     muts = []
